@@ -84,3 +84,7 @@ package symtable
 //@     invariant det: forall k string: visited(k) ==> has(scopes, k) && scopes[k] == tableScope(st.Symbols[k], pre(inSet(bound, k)))
 //@     invariant untouched: forall k string: !visited(k) ==> !has(scopes, k) && (inSet(bound, k) <==> pre(inSet(bound, k))) && (has(global, k) <==> pre(has(global, k)))
 //@     invariant vis: forall k string: visited(k) ==> has(st.Symbols, k)
+
+//@ func (*SymTable).GetScope(st, name) (r)
+//@   requires nn: st != nil
+//@   ensures def: r == ite(has(st.Symbols, name), st.Symbols[name].Scope, ScopeInvalid)
